@@ -891,8 +891,17 @@ func (c *hostile) decode(kind string, t *Ty, data []byte, old *Val, emitCase boo
 	if res.alloc > limit {
 		c.h.s.Monitor("alloc", in, fmt.Sprintf("Read of %d input bytes into %s allocated %d bytes (monitor limit %d)", len(data), t.RType(), res.alloc, limit))
 	}
-	if res.nanos > int64(2e6)*int64(len(data)+50) {
-		c.h.s.Monitor("slow", in, fmt.Sprintf("Read of %d input bytes into %s took %d ms", len(data), t.RType(), res.nanos/1e6))
+	if slowLimit := int64(200e6) + int64(50e3)*int64(len(data)); res.nanos > slowLimit {
+		// confirm (the machine may be busy): the fastest of three more runs must still be over the limit
+		best := res.nanos
+		for k := 0; k < 3; k++ {
+			if r2 := read(t, data, old); r2.nanos < best {
+				best = r2.nanos
+			}
+		}
+		if best > slowLimit {
+			c.h.s.Monitor("slow", in, fmt.Sprintf("Read of %d input bytes into %s took %d ms", len(data), t.RType(), best/1e6))
+		}
 	}
 	if res.err != nil || res.pan != nil {
 		if after := observe(t, res.target); !same(after, old) {
@@ -1194,9 +1203,9 @@ func main() {
 	case "total":
 		h.encodeAll(tier)
 		h.readCalls()
-		per := 4 * time.Second
+		per := 15 * time.Second
 		if tier > 1 {
-			per = 20 * time.Second
+			per = 30 * time.Second
 		}
 		runChildren(f, o, tier, per)
 	}
